@@ -362,7 +362,7 @@ def cases_iface(tier):
 def batch_frames(n):
     import static_frame as sf
     labs = ['bd', 'ba', 'bc', 'bb'][:n]
-    return [(l, sf.Frame(np.arange(6).reshape(3, 2) * (i + 1) - 2 * i, index=('r', 's', 't'), columns=('p', 'q'), name=l)) for i, l in enumerate(labs)]
+    return [(l, sf.Frame(np.arange(6).reshape(3, 2) * (i + 1) - 2 * i, index=('r', 's', 't'), columns=('p', 'q'), name='name-of-' + l)) for i, l in enumerate(labs)]     # the Batch label is NOT the frame's name
 
 
 BATCH_OPS = {
